@@ -688,7 +688,7 @@ func c14r3(c *core.Ctx) {
 			j := 0
 			missing := ""
 			for _, line := range z {
-				if strings.Contains(line, "hasRareComp") || strings.Contains(line, "allArchetypes") || strings.Contains(line, "var archetypes") || strings.TrimSpace(line) == "else" || strings.Contains(line, "archetypes = ") || strings.Contains(strings.ReplaceAll(line, " ", ""), "[]ID{}") {
+				if strings.Contains(line, actualFieldName(m, "Query0.hasRareComp")) || strings.Contains(line, "allArchetypes") || strings.Contains(line, "var archetypes") || strings.TrimSpace(line) == "else" || strings.Contains(line, "archetypes = ") || strings.Contains(strings.ReplaceAll(line, " ", ""), "[]ID{}") {
 					continue // frozen: arity-0 specific choice of the archetype list / empty id list
 				}
 				found := false
